@@ -119,3 +119,60 @@ func (l *Limit) BadLimitCountsSignals(ctx context.Context, in chan Trav, out cha
 		}
 	}()
 }
+
+type KeyStep struct{ keys []string }
+
+func exists(t Trav, k string) bool { return k != "" && t != nil }
+
+func (h *KeyStep) OkFlagConjunction(in chan Trav, out chan Trav) {
+	for t := range in {
+		found := true
+		for _, k := range h.keys {
+			if !exists(t, k) {
+				found = false
+			}
+		}
+		if found {
+			out <- t
+		}
+	}
+}
+
+func (h *KeyStep) OkFlagAccumulate(in chan Trav, out chan Trav) {
+	for t := range in {
+		found := true
+		for _, k := range h.keys {
+			found = found && exists(t, k)
+		}
+		if found {
+			out <- t
+		}
+	}
+}
+
+func (h *KeyStep) OkFlagEarlyExit(in chan Trav, out chan Trav) {
+	for t := range in {
+		found := true
+		for _, k := range h.keys {
+			found = exists(t, k)
+			if !found {
+				break
+			}
+		}
+		if found {
+			out <- t
+		}
+	}
+}
+
+func (h *KeyStep) BadFlagLastWins(in chan Trav, out chan Trav) {
+	for t := range in {
+		found := false
+		for _, k := range h.keys {
+			found = exists(t, k)
+		}
+		if found {
+			out <- t
+		}
+	}
+}
